@@ -330,6 +330,20 @@ func sweepCases(all bool) []*Case {
 			}
 		}
 	}
+	// 1 MiB contents, present in every run of either tier
+	const mib = (1 << 20) / 16
+	for _, kind := range []string{"*[]byte", "readerfrom", "writer", "*iface-bytes"} {
+		add(Case{Codec: "bytestream", Dir: "consume", Kind: kind, Content: "0123456789abcde\n", Rep: mib, R: Script{Chunks: []int{4096, 1, 70000}, EOFData: true}, DBuf: 4096})
+	}
+	for _, kind := range []string{"reader", "readcloser", "writerto", "[]byte", "string"} {
+		add(Case{Codec: "bytestream", Dir: "produce", Kind: kind, Content: "0123456789abcde\n", Rep: mib, O: Script{Chunks: []int{4096, 1, 70000}}})
+	}
+	add(Case{Codec: "text", Dir: "consume", Kind: "*string", Content: "0123456789abcde\n", Rep: mib, R: Script{Chunks: []int{33000}}})
+	add(Case{Codec: "text", Dir: "produce", Kind: "string", Content: "0123456789abcde\n", Rep: mib})
+	for _, codec := range []string{"json", "xml", "yaml"} {
+		add(Case{Codec: codec, Dir: "roundtrip", Kind: "string", Content: "0123456789abcdef", Rep: mib, Num: "1", R: Script{Chunks: []int{4096, 1, 70000}, EOFData: true}})
+		add(Case{Codec: codec, Dir: "roundtrip", Kind: "struct", Content: "0123456789abcdef", Rep: mib, Num: "1"})
+	}
 	for _, kind := range []string{"*string", "*[]byte", "buffer", "nil", "nil-*string"} {
 		add(Case{Codec: "discard", Dir: "consume", Kind: kind, Content: "payload", Pre: "old"})
 	}
